@@ -52,6 +52,7 @@ PARENT_MODULES: dict[str, str] = {
     "classes": (
         "import functools\n"
         "from typing import Iterator\n"
+        "from vfp_missing import Base, helper\n"
         "class K:\n"
         '    """K."""\n'
         "    x: int = 0\n"
@@ -74,6 +75,8 @@ PARENT_MODULES: dict[str, str] = {
         "class Sub(K):\n"
         "    z: str = ''\n"
         "    def __init__(self, q): ...\n"
+        "class Ext(Base):\n"
+        "    w: int = 0\n"
     ),
 }
 
@@ -83,7 +86,7 @@ PARENT_REFS: list[tuple[str, str] | None] = (
                              "gt0", "gt1", "gt2", "gt3", "gs", "ty", "rn")]
     + [("classes", ""), ("classes", "K"), ("classes", "Sub"), ("classes", "K.__init__"), ("classes", "Sub.__init__"),
        ("classes", "K.Inner.__init__"), ("classes", "K.meth"), ("classes", "K.prop"), ("classes", "K.tprop"),
-       ("classes", "K.gprop"), ("classes", "K.cprop"), ("classes", "K.x"), ("classes", "K.sm")]
+       ("classes", "K.gprop"), ("classes", "K.cprop"), ("classes", "K.x"), ("classes", "K.sm"), ("classes", "Ext")]
     # objects built through the API instead of visited: no file path (built-in-like module), plain-string annotations,
     # and one function that has no parent at all ("@" marks objects that are not members of the module)
     + [("api", ""), ("api", "f"), ("api", "C"), ("api", "C.__init__"), ("api", "C.x"), ("api", "C.p"), ("api", "@lonely")]
@@ -105,7 +108,7 @@ def parent_kind(ref) -> str:  # noqa: ANN001
         return "property"
     if last in ("attr", "x"):
         return "attribute"
-    if last in ("K", "Sub", "C"):
+    if last in ("K", "Sub", "C", "Ext"):
         return "class"
     return "function"
 
@@ -148,7 +151,7 @@ SPHINX_FIELDS = ["param", "parameter", "arg", "argument", "key", "keyword", "typ
                  "returns", "return", "rtype", "raises", "raise", "except", "exception"]
 
 NAMES = ["a", "b", "c", "d", "args", "kwargs", "*args", "**kwargs", "x", "y", "z", "flag", "self", "foo", "K", "prop", "inst",
-         "q", "kw", "", " ", "a b", "a.b", "1x", "\u00fcn\u00ef", "_p", "None", "x, y", "a,b", "f1", "Inner", "*", "**"]
+         "q", "kw", "", " ", "a b", "a.b", "1x", "Iterator", "typing", "typing.List", "functools", "helper", "helper.attr", "Base", "w", "\u00fcn\u00ef", "_p", "None", "x, y", "a,b", "f1", "Inner", "*", "**"]
 TYPES = ["int", "str", "list[int]", "Optional[Union[int, Tuple[float, float]]]", "a.b.C", "int or None", "'quoted'",
          "lambda: 0", "1 +", "", " ", "[", "dict[str,", "int, optional", "\u00dcn\u00ef", "x if y else z", "f'{x}'", "*args",
          "yield", "(yield)", "a := 1", "await x", "...", "None", "tuple[()]", "{a, b}", "{1, 2, 3}", "int, default 3",
